@@ -3,7 +3,8 @@
    GENERATED from bitvector.dom_to_width and _type_hints._bitfield_limits on
    every run), theories/L0Bits/BitsFacts.v and theories/L3Context/*Facts.v. *)
 From Coq Require Import ZArith List Bool String Lia.
-From Omega Require Import L0Bits.Bits L0Bits.BitsFacts.
+From Omega Require Import L0Bits.Bits L0Bits.BitsFacts L3Context.Ctx L3Context.CtxFacts
+  L3Context.Prime L3Context.PrimeFacts.
 From OmegaGen Require Import BitsGen.
 From OmegaGP Require Import BitsProofs.
 Import ListNotations.
@@ -76,9 +77,141 @@ Example C18_hypotheses_satisfiable :
   wf_hint (mkHint 3 true (-3, 2)) /\ in_limits (mkHint 3 true (-3, 2)) (-4) = true.
 Proof. repeat split; try reflexivity; try discriminate; simpl; lia. Qed.
 
+
+(* ---- priming, unpriming, renaming -------------------------------------------------
+   [t] is the table of a temporal.Automaton ([wf_aut]: every primed identifier is
+   the twin of an unprimed one with the same declaration); a BDD is modelled by
+   its meaning; [sem t u f] is its truth at the first-order assignment f. *)
+
+(* identifiers: prime then unprime is the identity *)
+Theorem C18_unprime_prime_ident : forall x, isprimed x = false ->
+  exists xp, sprime x = Some xp /\ isprimed xp = true /\ sunprime xp = Some x.
+Proof. exact unprime_prime_ident. Qed.
+
+(* prime: the primed predicate at a equals the operand at the assignment that
+   reads every flexible variable from its primed twin and leaves rigid
+   constants untouched *)
+Theorem C18_prime_sem : forall t u, wf_aut t -> uses_only (all_bits t) u ->
+  is_state_predicate t u = Some true ->
+  exists r, prime_pred t u = Some r /\ uses_only (all_bits t) r /\
+    forall a, r a = u (prime_asg t a).
+Proof. exact prime_sem. Qed.
+
+(* prime then unprime of a state predicate is the identity *)
+Theorem C18_unprime_prime : forall t u, wf_aut t -> uses_only (all_bits t) u ->
+  is_state_predicate t u = Some true ->
+  exists v w, prime_pred t u = Some v /\ unprime_pred t v = Some w /\
+    uses_only (all_bits t) w /\ forall a, w a = u a.
+Proof. exact unprime_prime. Qed.
+
+(* replace_with_primed / replace_with_unprimed: the value at an assignment
+   equals the original's value at the correspondingly renamed assignment *)
+Theorem C18_rename_sem : forall t vrs u, wf_aut t -> uses_only (all_bits t) u ->
+  NoDup vrs -> (forall x, In x vrs -> isprimed x = false /\ flexible t x = true) ->
+  (exists r, replace_with_primed t vrs u = Some r /\ uses_only (all_bits t) r /\
+     forall f, sem t r f =
+       sem t u (fun x => if mem String.eqb x vrs then f (x ++ tick)%string else f x)) /\
+  (exists r, replace_with_unprimed t vrs u = Some r /\ uses_only (all_bits t) r /\
+     forall f, sem t r f =
+       sem t u (frename f (map (fun v => ((v ++ tick)%string, v)) vrs))).
+Proof.
+  intros t vrs u Hwf Hu ND Hv. split.
+  - apply replace_with_primed_sem; auto.
+  - apply replace_with_unprimed_sem; auto.
+Qed.
+
+(* any renaming of same-typed variables (Context.let, rename_variables' core) *)
+Theorem C18_let_vars_sem : forall t ren u,
+  wf_tbl t -> uses_only (all_bits t) u -> ren_ok t ren ->
+  exists r, ctx_let_vars t ren u = Some r /\ uses_only (all_bits t) r /\
+    forall f, sem t r f = sem t u (frename f ren).
+Proof. exact rename_spec. Qed.
+
+(* ---- support classification --------------------------------------------------------- *)
+(* the reported support is the semantic one (C07_support_spec) and its
+   classification into unprimed / primed / rigid / flexible identifiers, and the
+   state-predicate / proper-action tests, are exact *)
+Theorem C18_support_classification_exact : forall t u s,
+  ctx_support t u = Some s ->
+  (exists l, unprimed_support t u = Some l /\
+     forall x, In x l <-> In x s /\ isprimed x = false) /\
+  (exists l, primed_support t u = Some l /\
+     forall x, In x l <-> In x s /\ isprimed x = true) /\
+  (exists l1 l2, split_support t u = Some (l1, l2) /\
+     (forall x, In x l1 <-> In x s /\ isprimed x = false) /\
+     (forall x, In x l2 <-> In x s /\ isprimed x = true)) /\
+  (exists l, rigid_support t u = Some l /\
+     forall x, In x l <-> In x s /\ isprimed x = false /\ flexible t x = false) /\
+  (exists l, flexible_support t u = Some l /\
+     forall x, In x l <-> In x s /\ isprimed x = false /\ flexible t x = true) /\
+  is_state_predicate t u = Some (forallb (fun x => negb (isprimed x)) s) /\
+  is_proper_action t u =
+    Some (existsb isprimed s && existsb (fun x => negb (isprimed x)) s).
+Proof. exact support_classification. Qed.
+
+Theorem C18_support_semantic : forall t u, wf_tbl t -> uses_only (all_bits t) u ->
+  exists s, ctx_support t u = Some s /\ NoDup s /\
+    forall x, In x s <->
+      exists d f v, In (x, d) t /\ in_range t f /\ val_in_range d v = true /\
+                    sem t u f <> sem t u (fupd f x v).
+Proof. exact support_spec. Qed.
+
+(* ---- type-hint predicates ----------------------------------------------------------------- *)
+Theorem C18_type_hint_sem : forall t vrs, wf_tbl t ->
+  (forall x, In x vrs -> exists d, tlookup x t = Some d) ->
+  exists r, type_hint_for t vrs = Some r /\ uses_only (all_bits t) r /\
+    forall f, in_range t f -> sem t r f = hint_holds t vrs f.
+Proof. exact type_hint_sem. Qed.
+
+Theorem C18_type_action_sem : forall t vrs, wf_tbl t ->
+  (forall x, In x vrs -> exists d, tlookup x t = Some d /\
+     match d with
+     | DInt _ => isprimed x = false /\
+                 exists hp, tlookup (x ++ tick)%string t = Some (DInt hp)
+     | DBool => True
+     end) ->
+  exists r, type_action_for t vrs = Some r /\ uses_only (all_bits t) r /\
+    forall f, in_range t f -> sem t r f = action_holds t vrs f.
+Proof. exact type_action_sem. Qed.
+
+Theorem C18_implies_type_hints_spec : forall t u vrs,
+  wf_tbl t -> uses_only (all_bits t) u ->
+  let vs := match vrs with
+            | Some v => v
+            | None => filter (fun x => negb (isprimed x)) (map fst t)
+            end in
+  (forall x, In x vs -> exists d, tlookup x t = Some d) ->
+  exists b, implies_type_hints t u vrs = Some b /\
+    (b = true <->
+     forall f, in_range t f -> sem t u f = true -> hint_holds t vs f = true).
+Proof. exact implies_type_hints_spec. Qed.
+
+Example C18_automaton_hypotheses_satisfiable :
+  wf_aut [("x"%string, DInt (mkHint 2 false (0, 2)));
+          ("x'"%string, DInt (mkHint 2 false (0, 2)));
+          ("k"%string, DBool)] /\
+  flexible [("x"%string, DInt (mkHint 2 false (0, 2)));
+            ("x'"%string, DInt (mkHint 2 false (0, 2)));
+            ("k"%string, DBool)] "x"%string = true /\
+  is_state_predicate [("x"%string, DInt (mkHint 2 false (0, 2)));
+            ("x'"%string, DInt (mkHint 2 false (0, 2)));
+            ("k"%string, DBool)]
+     (fun a => a ("x"%string, 0%nat) && a ("k"%string, 0%nat)) = Some true.
+Proof. split; [exact wf_aut_example|]. split; vm_compute; reflexivity. Qed.
+
 Print Assumptions C18_declaration_total.
 Print Assumptions C18_hint_representable.
 Print Assumptions C18_limits_exact.
 Print Assumptions C18_limits_least_greatest.
 Print Assumptions C18_width_minimal_shape.
 Print Assumptions C18_encode_decode.
+Print Assumptions C18_unprime_prime_ident.
+Print Assumptions C18_prime_sem.
+Print Assumptions C18_unprime_prime.
+Print Assumptions C18_rename_sem.
+Print Assumptions C18_let_vars_sem.
+Print Assumptions C18_support_classification_exact.
+Print Assumptions C18_support_semantic.
+Print Assumptions C18_type_hint_sem.
+Print Assumptions C18_type_action_sem.
+Print Assumptions C18_implies_type_hints_spec.
